@@ -110,9 +110,11 @@ def mk_bpe_vocab(rng, name, style):
     values = [chr(GPT2[b]).encode() for b in order]
     types = [1] * 256
     complete = True
-    if style == "safe105":
-        # ids 105/106 are treated as special by SpecialVocabulary whatever their type: make them plain ASCII here
-        values[105], values[106] = b"ab", b"<|t|>"
+    if style in ("safe105", "overlap"):
+        # ids 105/106 are treated as special by SpecialVocabulary whatever their type: make them plain ASCII here.  The FIRST
+        # special (id 105) and the LAST one ("<|last|>", appended below) share the prefix "<|", which the other special tokens
+        # ("ab"/"[INST]"/"EOT"/"<end of turn>"/...) do not have
+        values[105], values[106] = b"<|p105|>", (b"ab" if style == "safe105" else b"[p106]")
         values += [chr(GPT2[order[105]]).encode(), chr(GPT2[order[106]]).encode()]
         types += [1, 1]
     if style == "incomplete":
@@ -171,6 +173,10 @@ def mk_bpe_vocab(rng, name, style):
     ctrl = ctrl + [b"<end of turn>"] + ([b" <lead>", b"<trail> "] if style in ("std", "simple", "overlap") else [b"<tool  call>", b"<a\tb>"])
     if style == "overlap":
         ctrl.append("<|Ġ|>".encode())
+    # heterogeneous literals: other bracket, no bracket at all; in two styles the last special shares "<|" with the first
+    ctrl = ctrl + [b"[INST]", b"[/INST]", b"EOT"]
+    if style in ("safe105", "overlap"):
+        ctrl.append(b"<|last|>")
     bos = len(values) + ctrl.index(b"<|bos|>")
     for c in ctrl:
         values.append(c)
@@ -195,6 +201,10 @@ SPM_ALPHA = list("abcde") + [" ", " ", " ", "1", ".", "é", "€", "́", "\U0001
 
 def mk_spm_vocab(rng, name, style):
     values, types, scores = [b"<unk>", b"<s>", b"</s>"], [2, 3, 3], [0, 0, 0]
+    if style == "normal-first":
+        # the FIRST and the LAST special token ("[BOS]" ... "[INST]") share the prefix "[", the others ("<pad105>", "<start_of_turn>",
+        # "EOT", ...) do not
+        values[1], values[2] = b"[BOS]", b"[EOS]"
     normal = []
     singles = [c.replace(" ", SEP) for c in SPM_ALPHA]
     singles = sorted(set(singles))
@@ -267,7 +277,8 @@ def mk_spm_vocab(rng, name, style):
     # control tokens whose literal contains spaces (inner, leading, trailing, double) or U+2581 itself: Encode splits on the
     # special literals FIRST (raw text) and escapes spaces to U+2581 only inside the remaining text fragments
     spaced = ([b"<end of turn>", b" <lead>", b"<trail> "] if style != "normal-first" else [b"<tool  call>", b"<a b c>", ("<u" + SEP + "v>").encode()])
-    for t in ([b"<start_of_turn>", b"</s>!"] if style != "normal-first" else [b"<s>s", b"<start_of_turn>"]) + spaced:
+    hetero = [b"[INST]", b"EOT", (SEP + "<x>").encode(), b"<zlast>"] if style != "normal-first" else [b"EOT", b"<|eot|>", b"[INST]"]
+    for t in ([b"<start_of_turn>", b"</s>!"] if style != "normal-first" else [b"<s>s", b"<start_of_turn>"]) + spaced + hetero:
         values.append(t)
         types.append(3)
         scores.append(0)
@@ -540,7 +551,12 @@ def gen(ctx):
             if others:
                 fixed.append([rng.choice(others), x])
                 nfix2 += 1
-        spaced_parts = [["say ", " now"], ["a b ", " c d"], ["", " x"], ["x ", ""], [" ", " "], ["a", "b"]]
+        # EVERY special token alone between ordinary text (deterministic; whatever prefix family it belongs to)
+        for x in sps:
+            if x not in spaced:
+                fixed.append([x])
+                nfix2 += 1
+        spaced_parts = [["say ", " now"], ["a b ", " c d"], ["", " x"], ["x ", ""], [" ", " "], ["a", "b"], ["\U0001F600", "."]]
         nfixed0 = len(fixed) - nfix2
         for k in range(len(fixed) + (18 if q else 250)):
             if k < len(fixed):
